@@ -340,7 +340,7 @@ pub fn e2_leg(ctx: &mut Ctx) -> bool {
         batch.add(&format!("a{i:05}"), super::c01::gen_case(&mut Tape::new(tp), false).src);
     }
     for (i, tp) in crate::drive::gen_tapes(ctx.seed, 202, n / 2, super::c07::TAPE_LEN).iter().enumerate() {
-        batch.add(&format!("b{i:05}"), super::c07::gen_case(&mut Tape::new(tp)).src);
+        batch.add(&format!("b{i:05}"), super::c07::gen_case(&mut Tape::new(tp), &[0, 1, 2]).src);
     }
     let out = batch.build_and_run();
     batch.cleanup();
